@@ -393,10 +393,12 @@ def run(ctx):
     tt = translate(ctx)
     ctx.log('translated' if tt is not None else 'translation refused')
     if tt is not None:
-        # thorough tier additionally proves that the hypothesis `admissible` of the single-potential theorems
-        # holds at two concrete states (interval arithmetic on every divisor of the DAGs; six files in parallel)
+        # thorough tier additionally (coq/C15/thorough/*.v): `admissible` of the single-potential theorems holds at two
+        # concrete states (one interval enclosure per DAG node), and the densities of the two formulations agree on a
+        # stated sub-range (44 interval tiles, PropsT.v: theorems named _partial)
         extra = sorted(__import__('glob').glob(os.path.join(vf.COQDIR, 'C15', 'thorough', '*.v'))) if ctx.thorough else []
-        ctx.coq_build(props=('Props.v', 'PropsR.v', 'PropsS.v', 'Props2.v', 'Props3.v', 'Props4.v', 'Props5.v'), timeout=1700 if ctx.thorough else 600, extra_files=extra)
+        props = ('Props.v', 'PropsR.v', 'PropsS.v', 'Props2.v', 'Props3.v', 'Props4.v', 'Props5.v') + (('PropsT.v',) if ctx.thorough else ())
+        ctx.coq_build(props=props, timeout=1700 if ctx.thorough else 600, extra_files=extra)
         ctx.log('coq build done: %d theorem(s)' % len([t for t in ctx.theorems if t[1] is not None]))
         try:
             correspond(ctx, tt[2], scale)
